@@ -176,6 +176,32 @@ impl Storage {
     /// analysis later.
     #[must_use]
     pub fn stores_as_values(self) -> Vec<RuntimeBoxedVal> {
+        #[cfg(smlxl_storage_layout_extractor_verif)]
+        {
+            // Same traversal with the two maps' iteration orders made explicit
+            let mut all_values: Vec<RuntimeBoxedVal> = Vec::new();
+            let known: Vec<_> = self.known_slots.into_iter().collect();
+            let symbolic: Vec<_> = self.symbolic_slots.into_iter().collect();
+            crate::verif_hooks::permute("storage.known_slots", known)
+                .into_iter()
+                .chain(crate::verif_hooks::permute("storage.symbolic_slots", symbolic))
+                .for_each(|(k, vs)| {
+                    all_values.extend(vs.into_iter().map(|v| {
+                        let provenance = v.provenance();
+                        RSV::new(
+                            v.instruction_pointer(),
+                            RSVD::StorageWrite {
+                                key:   k.clone(),
+                                value: v,
+                            },
+                            provenance,
+                            None,
+                        )
+                    }));
+                });
+            return all_values;
+        }
+        #[allow(unreachable_code)]
         let mut all_values: Vec<RuntimeBoxedVal> = Vec::new();
 
         self.known_slots
